@@ -574,4 +574,6 @@ def rule_fmttab(crate, lib, min_strings=10, repo=None):
     out.floor("format_strings", n_fmt, 9)
     out.floor("table_rows", rd.table_rows, 4)
     out.floor("strings", len(seen), min_strings)
+    if repo:
+        out.floor("documented_examples", n_doc, 20)  # the manual's format tables must be found (fail closed)
     return out
